@@ -34,7 +34,7 @@ def sample_case(rng):
     n = rng.choice([1, 2, 3])
     R = rng.choice([0, 1, 1, 2])                 # per-lane rank of the output
     pl = [rng.choice([1, 2, 3]) for _ in range(R)]
-    S = [rng.choice([2, 3]) for _ in range(rng.choice([0, 0, 1]))]
+    S = [rng.choice([2, 3]) for _ in range(rng.choice([0, 0, 1, 1, 2]))]      # the site's own sample_shape (rank 0-2)
     mismatch = rng.random() < 0.15              # known finding K3: differing per-lane ranks
 
     def mk(batched_p=0.7):
